@@ -89,9 +89,12 @@ def execute(sc, workdir):
 
 
 def finding_key(entry, sc):
-    # entry = ["C05", clause, port, t_offer, t_accept, bound, nholders]
-    if entry[1] in ("offered command accepted later than Bacc", "offered command never accepted") and len(entry) >= 7:
-        return "%s|bank served %s other port(s) meanwhile" % (entry[1], "exactly one" if entry[6] == 1 else str(entry[6]))
+    # entry = ["C05", clause, port, t_offer, t_accept, bound, nholders, nruns]
+    if entry[1] in ("offered command accepted later than Bacc", "offered command never accepted") and len(entry) >= 8:
+        nh, nr = entry[6], entry[7]
+        if nh >= 1 and nr == nh:
+            return "%s|bank held by other port(s) in uninterrupted streams meanwhile" % entry[1]
+        return "%s|bank served %d other port(s) in %d runs meanwhile" % (entry[1], nh, nr)
     return str(entry[1])
 
 
